@@ -373,37 +373,21 @@ where %v like ?
 			pk,
 		)
 
-		if limit > 0 {
-			if err := queries.Raw(
-				query+`limit ?`,
-				prefix,
-				prefix,
-				prefix+"%",
-				rootDepth,
-				rootDepth+1,
-				limit+1, // +1 to accomodate the parent directory if it exists
-			).Bind(ctx, p.sqlite.DB, &headers); err != nil {
-				if err == sql.ErrNoRows {
-					return headers, nil
-				}
-
-				return nil, err
+		// The limit can't be applied here: `like` also selects rows of other directories (`_` and `%` are wildcards and
+		// case is ignored), which are only dropped below; limiting before that would return too few children
+		if err := queries.Raw(
+			query,
+			prefix,
+			prefix,
+			prefix+"%",
+			rootDepth,
+			rootDepth+1,
+		).Bind(ctx, p.sqlite.DB, &headers); err != nil {
+			if err == sql.ErrNoRows {
+				return headers, nil
 			}
-		} else if limit <= 0 {
-			if err := queries.Raw(
-				query,
-				prefix,
-				prefix,
-				prefix+"%",
-				rootDepth,
-				rootDepth+1,
-			).Bind(ctx, p.sqlite.DB, &headers); err != nil {
-				if err == sql.ErrNoRows {
-					return headers, nil
-				}
 
-				return nil, err
-			}
+			return nil, err
 		}
 
 		return headers, nil
